@@ -193,3 +193,12 @@ def run(ctx):
     g = Guards(prog, flows)
     check_refusal(ctx, g, "R-C15-5", prog.one("convert::Graph::reverse"), "directed", False, "undirected graphs")
     check_refusal(ctx, g, "R-C15-5", prog.one("convert::Graph::to_single_edges"), "multi_edges", False, "single-edge graphs")
+
+
+def run_once(ctx):
+    if ctx.tier != "thorough":
+        ctx.note("the compile-fail witnesses run in the thorough tier")
+        return
+    import witness
+
+    witness.run_witnesses(ctx, "R-C15-1w", ["C15"])
